@@ -79,7 +79,7 @@ def run_load_cell(cell, path_or_text, fmt_real, fails):
         with warnings.catch_warnings():
             warnings.simplefilter("ignore")
             labels_ = list(ml.CDXMLFile(path_or_text).keys())
-        key = {"first": labels_[0], "last": labels_[-1], "missing": "no such label"}[cell["key"]]
+        key = {"first": labels_[0], "last": labels_[-1], "missing": "no such label", "index0": 0, "index_last": -1, "empty": ""}[cell["key"]]     # labels, or the positional keys CDXMLFile[...] accepts
         kw["key"] = key
         where += f" key={key!r}"
     if is_file:
@@ -334,7 +334,7 @@ def load_cells():
                             if name is None:
                                 yield {"fn": fn, "fmt": fmt, "src": src, "fmtarg": fmtarg, "otype": ot, "name": name, "stem": "mol.conf.1 v2.XYZ.mol2.final"}
                             if fn == "load" and fmt == "cdxml":
-                                for key in ("first", "last", "missing"):
+                                for key in ("first", "last", "missing", "index0", "index_last", "empty"):
                                     yield {"fn": fn, "fmt": fmt, "src": src, "fmtarg": fmtarg, "otype": ot, "name": name, "key": key}
     for fn in ("loads", "loads_all"):
         for fmt in FMTS:
